@@ -155,10 +155,24 @@ def r9_repeat_none(prog):
         for p in rets[:1] if len(rets) == 1 else rets:
             v = p.ret
             halves = v[4] if isinstance(v, tuple) and v[0] == 'agg' and v[1] == 'tuple' and len(v[4]) == 2 else None
-            if not halves or not all(isinstance(h, tuple) and h[0] == 'agg' and h[1] == P for h in halves):
+            me_ = ('p', 1, f.body.local_name(1) or 'self')
+
+            def count_of(h):
+                """the count a returned half carries: a fresh producer, or `self` handed on with its count rewritten"""
+                if isinstance(h, tuple) and h[0] == 'agg' and h[1] == P:
+                    return h[4][ci]
+                if isinstance(h, tuple) and h[0] == 'upd' and h[1] == me_:
+                    for k_, v_ in h[2]:
+                        if k_ == ci:
+                            return v_
+                    return ('f', me_, ci, P)
+                if h == me_:
+                    return ('f', me_, ci, P)
+                return None
+            if not halves or any(count_of(h) is None for h in halves):
                 r.viol('R9', 'split_at/shape', f.loc(), 'split_at does not return a pair of producers')
                 break
-            left, right = pathsem.lin(halves[0][4][ci]), pathsem.lin(halves[1][4][ci])
+            left, right = pathsem.lin(count_of(halves[0])), pathsem.lin(count_of(halves[1]))
             if not (left.const == 0 and list(left.terms.items()) == [(idx, 1)]):
                 r.viol('R9', 'split_at/left-count', f.loc(), 'left half must yield exactly `index` items (got %s): rayon zips producers by position, so a wrong split drops or duplicates entities' % left)
             rt = dict(right.terms)
